@@ -750,3 +750,36 @@ Theorem latevote_without_fix_refuted :
     votes t = [(0, VYes 0); (1, VYes 1)] /\ votes t' = [(0, VNo); (1, VYes 1)].
 Proof. vm_compute. eexists. eexists. repeat split. Qed.
 
+(* ======================================================================== *)
+(* further recover_from_wal() calls on the LIVE coordinator keep the invariant too *)
+Lemma aget_fold_aset {V} (rs : list (N * V)) : forall (p : list (N * V)) k, NoDupK rs ->
+  aget (fold_left (fun p x => aset p (fst x) (snd x)) rs p) k =
+  match aget rs k with Some v => Some v | None => aget p k end.
+Proof.
+  unfold NoDupK. induction rs as [|[k0 v0] rs IH]; intros p k ND; cbn [fold_left aget fst snd map] in *; [reflexivity|].
+  inversion ND as [|? ? Hn Hd]; subst. rewrite (IH _ k Hd).
+  destruct (N.eqb_spec k0 k) as [->|Hne].
+  - rewrite (aget_notin rs k Hn). rewrite aget_aset, N.eqb_refl. reflexivity.
+  - destruct (aget rs k); [reflexivity|]. rewrite aget_aset. destruct (N.eqb_spec k0 k); [contradiction|reflexivity].
+Qed.
+Lemma NoDupK_fold_aset {V} (rs : list (N * V)) : forall p, NoDupK p ->
+  NoDupK (fold_left (fun p x => aset p (fst x) (snd x)) rs p).
+Proof.
+  induction rs as [|[k0 v0] rs IH]; intros p H; cbn [fold_left]; [exact H|]. apply IH, NoDupK_aset, H.
+Qed.
+
+(* the pending table after a live recovery call over the log es *)
+Definition merge_recovered (fw : bool) (now : N) (es : list tentry) (c : coord) : coord :=
+  Co (fold_left (fun p x => aset p (fst x) (snd x)) (pending (fst (recover_entries true fw now es))) (pending c))
+     (release (locks c) (map snd (orphans (scanL es)))) (cfg_prepare_timeout c).
+
+Lemma LInv_recover_live fw now c es : LInv c es -> LInv (merge_recovered fw now es c) es.
+Proof.
+  intros [ND HI]. destruct (LInv_restart fw now es) as [NDr HIr].
+  split; cbn [merge_recovered pending].
+  - apply NoDupK_fold_aset. exact ND.
+  - intros tx t Ht. rewrite aget_fold_aset in Ht by exact NDr.
+    destruct (aget (pending (fst (recover_entries true fw now es))) tx) as [t0|] eqn:E.
+    + inversion Ht; subst t0. apply (HIr tx t E).
+    + apply (HI tx t Ht).
+Qed.
